@@ -26,6 +26,21 @@ def _interesting(T: Any) -> bool:
     return False
 
 
+def _has_str_subclass_key(vals: List[Any]) -> bool:
+    seen = []
+
+    def walk(v: Any) -> bool:
+        if isinstance(v, dict):
+            if any(type(k) is not str and isinstance(k, str) for k in v):
+                return True
+            return any(walk(x) for x in v.values())
+        if isinstance(v, (list, tuple, set, frozenset)):
+            return any(walk(x) for x in v)
+        return False
+
+    return any(walk(v) for v in vals)
+
+
 def judge(res: Result, case: Dict[str, Any], vals: List[Any], typ, k: int, get_type, shrink_types) -> None:
     n = len(vals)
     per = [typ(p) for p in range(n)]
@@ -44,7 +59,11 @@ def judge(res: Result, case: Dict[str, Any], vals: List[Any], typ, k: int, get_t
     why = O.tight(T, vals)
     if why is not None:
         sig = why.split(":", 1)[1].strip().split(" ")[0:3]
-        res.violate(Violation(ID, "loose", f"{arm}:{'_'.join(sig)}", case, f"{O.show(T)} — {why}"))
+        full_sig = f"{arm}:{'_'.join(sig)}"
+        if "[k]: class str is not the exact runtime class" in why and _has_str_subclass_key(vals):
+            # input class of the failing case: a dict keyed by instances of a proper str subclass, reported with key class str
+            full_sig = "str-subclass-dict-key-reported-as-str"
+        res.violate(Violation(ID, "loose", full_sig, case, f"{O.show(T)} — {why}"))
         return
     res.outcomes.add(hash(O.struct(T)))
     # the same collection merged as call traces (one trace per value, plus one call that raised and one that yielded):
